@@ -2,6 +2,7 @@ package rules
 
 import (
 	"fmt"
+	"go/token"
 	"go/types"
 	"sort"
 	"strings"
@@ -127,6 +128,7 @@ func resultAllocs(fn *ssa.Function) []*ssa.Alloc {
 type detailsShape struct {
 	positional bool
 	elems      []map[string]bool // receiver field paths per index
+	vals       [][]ssa.Value     // the SSA value(s) written at each index (one per return shape)
 	all        map[string]bool
 	why        string
 }
@@ -156,6 +158,11 @@ func (c2 *codecCtx) detailsOf(v ssa.Value, depth int) detailsShape {
 						}
 					}
 					ds.elems = append(ds.elems, m)
+					if i < len(els) {
+						ds.vals = append(ds.vals, []ssa.Value{els[i]})
+					} else {
+						ds.vals = append(ds.vals, nil)
+					}
 				}
 				return ds
 			}
@@ -183,10 +190,14 @@ func (c2 *codecCtx) detailsOf(v ssa.Value, depth int) detailsShape {
 			}
 			if ds.positional {
 				ds.elems = shapes[0].elems
+				ds.vals = shapes[0].vals
 				for _, s := range shapes[1:] {
 					for i := range s.elems {
 						for k := range s.elems[i] {
 							ds.elems[i][k] = true
+						}
+						if i < len(ds.vals) && i < len(s.vals) {
+							ds.vals[i] = append(ds.vals[i], s.vals[i]...)
 						}
 					}
 				}
@@ -502,6 +513,22 @@ func runCodec(c *core.Ctx, keep func(*codecPair) bool) {
 				ok := deps[fp] || hasPrefixKey(deps, fp)
 				c.Check(ok, construct("A7 "+fp+" <- "+s), pos, "the writer fills "+s+" from field "+fp,
 					fmt.Sprintf("decoder restores field %s from %s but the writer fills that slot from %s: the field comes back with another field's value (or none)", fp, s, setStr(deps)))
+				// A10: a field that the decoder takes over verbatim from a fixed detail position must be written there
+				// verbatim (conversions only): a writer that trims, prefixes or re-formats the value hands the decoder
+				// another value than the field held
+				var di int
+				if nn, _ := fmt.Sscanf(s, "DETAILS[%d]", &di); ok && nn == 1 && det.positional && di < len(det.vals) && len(det.vals[di]) > 0 {
+					if found, rVerb := readerVerbatim(cp.Dec, fp, di); found && rVerb {
+						wVerb := true
+						for _, wv := range det.vals[di] {
+							if wv == nil || !verbatimOfField(wv, 0) {
+								wVerb = false
+							}
+						}
+						c.Check(wVerb, construct("A10 "+fp+" <- "+s), pos, "written and restored verbatim",
+							fmt.Sprintf("decoder restores field %s verbatim from %s but the writer puts a transformed value of the field there (%s): the field comes back changed after a hop - for a field that takes part in the identity (a domain, a key) Is() fails between the original and the transferred error", fp, s, describeVals(det.vals[di])))
+					}
+				}
 			}
 		}
 		// A6: every field of the key's struct is read by the writer
@@ -644,4 +671,93 @@ func originClass(o *origin.Origin, d *ssa.Function) string {
 		}
 	}
 	return o.Kind.String() + " " + o.Desc
+}
+
+// verbatimOfField: v is a field of the receiver (or of a struct it holds), possibly converted - no call, no operator.
+func verbatimOfField(v ssa.Value, d int) bool {
+	if d > 6 {
+		return false
+	}
+	switch x := v.(type) {
+	case *ssa.Convert:
+		return verbatimOfField(x.X, d+1)
+	case *ssa.ChangeType:
+		return verbatimOfField(x.X, d+1)
+	case *ssa.MakeInterface:
+		return verbatimOfField(x.X, d+1)
+	case *ssa.Field:
+		return true
+	case *ssa.UnOp:
+		if x.Op == token.MUL {
+			_, isFA := x.X.(*ssa.FieldAddr)
+			return isFA
+		}
+	case *ssa.Phi:
+		for _, e := range x.Edges {
+			if !verbatimOfField(e, d+1) {
+				return false
+			}
+		}
+		return len(x.Edges) > 0
+	}
+	return false
+}
+
+// readerVerbatim: the decoder stores into the field named by the last component of fp a value that is, up to
+// conversions, the element #i of its details parameter.
+func readerVerbatim(dec *ssa.Function, fp string, i int) (found, verbatim bool) {
+	name := fp
+	if k := strings.LastIndex(fp, "."); k >= 0 {
+		name = fp[k+1:]
+	}
+	if len(dec.Params) < 3 {
+		return false, false
+	}
+	details := dec.Params[len(dec.Params)-2]
+	verbatim = true
+	sx.EachInstr(dec, func(in ssa.Instruction) {
+		st, ok := in.(*ssa.Store)
+		if !ok {
+			return
+		}
+		fa, ok := st.Addr.(*ssa.FieldAddr)
+		if !ok || sx.FieldOf(fa).Name() != name {
+			return
+		}
+		v := st.Val
+		for {
+			switch x := v.(type) {
+			case *ssa.Convert:
+				v = x.X
+				continue
+			case *ssa.ChangeType:
+				v = x.X
+				continue
+			}
+			break
+		}
+		ld, ok := v.(*ssa.UnOp)
+		if !ok || ld.Op != token.MUL {
+			if dependsOnValue(v, details, map[ssa.Value]bool{}, 0) {
+				found, verbatim = true, false
+			}
+			return
+		}
+		ia, ok := ld.X.(*ssa.IndexAddr)
+		if !ok || identity(ia.X) != ssa.Value(details) {
+			return
+		}
+		if k, isK := sx.ConstInt(ia.Index); isK && int(k) == i {
+			found = true
+		}
+	})
+	return found, found && verbatim
+}
+
+func describeVals(vs []ssa.Value) string {
+	var out []string
+	for _, v := range vs {
+		out = append(out, describeVal(v))
+	}
+	return strings.Join(out, ", ")
 }
